@@ -269,7 +269,12 @@ func (u *Unit) external(st *State, fr *Frame, in *ssa.Call, fn *ssa.Function, ar
 			}
 		}
 		return u.pureExternal(st, name, args, rt), true
-	case "crypto/ed25519", "crypto/sha512", "github.com/go-i2p/crypto/types", "github.com/go-i2p/crypto/kdf":
+	case "crypto/ed25519":
+		if res, ok := u.ed25519Model(st, fr, in, fn, args); ok {
+			return res, true
+		}
+		return u.pureExternal(st, name, args, rt), true
+	case "crypto/sha512", "github.com/go-i2p/crypto/types", "github.com/go-i2p/crypto/kdf":
 		// A-CRYPTO: deterministic functions of their arguments, no writes to
 		// caller-visible memory (uninterpreted)
 		return u.pureExternal(st, name, args, rt), true
@@ -444,17 +449,11 @@ func (u *Unit) invokeModel(st *State, fr *Frame, in *ssa.Call, recv IfaceV, m *t
 			return s, true
 		}
 	}
-	// A-CRYPTO: constructors of helper objects return a usable object exactly
-	// when they return no error
-	if recv.Opq != nil && sig.Results().Len() == 2 && types.Identical(sig.Results().At(1).Type(), types.Universe.Lookup("error").Type()) {
-		if _, isIface := sig.Results().At(0).Type().Underlying().(*types.Interface); isIface && (strings.HasPrefix(m.Name(), "New")) {
-			u.Assumed["A-CRYPTO: key."+m.Name()+"() returns a non-nil object exactly when it returns no error"]++
-			okb := u.newBool("newok")
-			obj := IfaceV{Nil: Not(okb), Opq: u.newInt("obj")}
-			er := IfaceV{Nil: okb, Opq: u.newInt("objerr")}
-			u.ifBound[obj.Opq.S] = Add(st.wm, IntLit(int64(st.nalloc)))
-			return TupleV{E: []Val{obj, er}}, true
-		}
+	if res, ok := u.newObjModel(st, recv, m); ok {
+		return res, true
+	}
+	if res, ok := u.sigObjectModel(st, fr, in, recv, m, args); ok {
+		return res, true
 	}
 	switch m.Name() {
 	case "Error", "String":
@@ -523,3 +522,36 @@ func numericVerbsOnly(f string) bool {
 }
 
 func splitNumericVerbs(f string) []string { return strings.Split(f, "%d") }
+
+// newObjModel: key.NewVerifier() / NewSigner() / NewEncrypter() ... on a key of
+// the crypto dependency (A-CRYPTO: constructors of helper objects return a
+// usable object exactly when they return no error).  The object remembers the
+// key it was made from.
+func (u *Unit) newObjModel(st *State, recv IfaceV, m *types.Func) (Val, bool) {
+	sig := m.Type().(*types.Signature)
+	if !(sig.Params().Len() == 0 && sig.Results().Len() == 2 && types.Identical(sig.Results().At(1).Type(), errType) && strings.HasPrefix(m.Name(), "New")) {
+		return nil, false
+	}
+	if _, isIface := sig.Results().At(0).Type().Underlying().(*types.Interface); !isIface {
+		return nil, false
+	}
+	if recv.Opq == nil && recv.Dyn == nil {
+		return nil, false
+	}
+	if recv.Dyn != nil {
+		n, ok := recv.Dyn.(*types.Named)
+		if !ok || n.Obj().Pkg() == nil || !strings.HasPrefix(n.Obj().Pkg().Path(), "github.com/go-i2p/crypto/") {
+			return nil, false
+		}
+	}
+	u.Assumed["A-CRYPTO: key."+m.Name()+"() returns a non-nil object exactly when it returns no error"]++
+	okb := u.newBool("newok")
+	obj := IfaceV{Nil: Not(okb), Opq: u.newInt("obj")}
+	er := IfaceV{Nil: okb, Opq: u.newInt("objerr")}
+	u.ifBound[obj.Opq.S] = Add(st.wm, IntLit(int64(st.nalloc)))
+	if u.objOwner == nil {
+		u.objOwner = map[string]IfaceV{}
+	}
+	u.objOwner[obj.Opq.S] = recv
+	return TupleV{E: []Val{obj, er}}, true
+}
